@@ -169,6 +169,10 @@ N("C15", "euler-inline", G + "polyhedron.py", "ConvexPolyhedron.__init__", "    
   "    closed = self._euler_check()\n    if not closed:")
 
 # =========================================================================== C19
+F("C19", "isclose-hidden-relative-tolerance", U + "vector.py", "Vector.__eq__", "abs(self._v[0] - other._v[0]) < get_eps() and",
+  "math.isclose(self._v[0], other._v[0], abs_tol=get_eps()) and", rule="R19.3", note="rel_tol=1e-9 stays active")
+N("C19", "isclose-relative-tolerance-off", U + "vector.py", "Vector.__eq__", "abs(self._v[0] - other._v[0]) < get_eps() and",
+  "math.isclose(self._v[0], other._v[0], rel_tol=0, abs_tol=get_eps()) and")
 F("C19", "stale-sig-in-point-hash", G + "point.py", None,
   "from ..utils.constant import get_sig_figures, get_eps", "from ..utils.constant import get_sig_figures, get_eps, SIG_FIGURES")
 CAT["C19"].pop()  # (import alone is harmless; the real mutant follows)
@@ -443,6 +447,13 @@ N("C07", "point-return-fresh", G + "point.py", "Point.move", "return Point(self.
 
 # =========================================================================== C18
 VEC = U + "vector.py"
+F("C18", "normalized-eps-guard", VEC, "Vector.normalized", "    return float(1 / self.length()) * self",
+  "    if self.length() < get_eps():\n        return Vector.zero()\n    return float(1 / self.length()) * self", rule="R18.6")
+N("C18", "normalized-exact-zero-guard", VEC, "Vector.normalized", "    return float(1 / self.length()) * self",
+  "    if self * self == 0:\n        return Vector.zero()\n    return float(1 / self.length()) * self",
+  note="only the zero vector, which has no direction and is outside the claimed range")
+F("C18", "angle-short-vector-shortcut", VEC, "Vector.angle", "    cos_angle = ",
+  "    if self.length() * other.length() < 1e-09:\n        return 0.0\n    cos_angle = ", rule="R18.6")
 F("C18", "cross-index-slip", VEC, "Vector.cross", "a[2] * b[0] - a[0] * b[2]", "a[2] * b[0] - a[0] * b[1]", rule="R18.1")
 F("C18", "cross-sign-flip", VEC, "Vector.cross", "a[0] * b[1] - a[1] * b[0]", "a[1] * b[0] - a[0] * b[1]", rule="R18.1")
 F("C18", "cross-rows-rotated", VEC, "Vector.cross",
@@ -517,6 +528,14 @@ F("C08", "segment-eq-same-twice", G + "segment.py", "Segment.__eq__", "self.end_
 F("C08", "line-eq-raw-dv", LN, "Line.__eq__", "other.dv.parallel(self.dv)", "other.dv == self.dv", rule="R8.7")
 F("C08", "halfline-eq-raw-vector", G + "halfline.py", "HalfLine.__eq__", "(self.vector.normalized() - other.vector.normalized()).length() < get_eps()",
   "(self.vector - other.vector).length() < get_eps()", rule="R8.7")
+N("C08", "line-hash-complete-sign-canonicalisation", G + "line.py", "Line.__hash__",
+  "    moment = self.sv.cross(unit)\n    forward = hash(('Line', unit, moment))\n    backward = hash(('Line', -unit, -moment))\n    return hash(('Line', forward + backward, forward * backward))",
+  "    if unit[0] < 0 or (unit[0] == 0 and (unit[1] < 0 or (unit[1] == 0 and unit[2] < 0))):\n        unit = -unit\n    moment = self.sv.cross(unit)\n    return hash(('Line', unit, moment))",
+  note="all three components are oriented: a complete canonical sign")
+F("C08", "line-hash-partial-sign-canonicalisation", G + "line.py", "Line.__hash__",
+  "    moment = self.sv.cross(unit)\n    forward = hash(('Line', unit, moment))\n    backward = hash(('Line', -unit, -moment))\n    return hash(('Line', forward + backward, forward * backward))",
+  "    if unit[0] < 0 or (unit[0] == 0 and unit[1] < 0):\n        unit = -unit\n    moment = self.sv.cross(unit)\n    return hash(('Line', unit, moment))",
+  rule="R8.4", note="directions along +-z are not oriented")
 N("C08", "line-hash-frozenset", LN, "Line.__hash__", "return hash(('Line', forward + backward, forward * backward))", "return hash(('Line', frozenset((forward, backward))))")
 N("C08", "line-hash-inline-unit", LN, "Line.__hash__", "    unit = self.dv.normalized()\n    moment = self.sv.cross(unit)", "    unit = self.dv.unit()\n    moment = self.sv.cross(self.dv.unit())")
 N("C08", "plane-hash-swapped-operands", PL, "Plane.__hash__", "forward + backward, forward * backward", "backward + forward, backward * forward")
